@@ -973,6 +973,323 @@ def oracle(ctx, rng):
     return nchk[0]
 
 
+
+# --------------------------------------------- boundary-size parameter oracle
+# Offsets / dimensions / spins / amplitudes at the places where an
+# intermediate quantity leaves a machine range although the answer does not:
+# 20!/21! (int64), 170!/171! (double), exp(-|a|^2/2) underflow (|a| > 38.6),
+# a**n overflow, large N.  References are independent of the implementation:
+# log-gamma in log space (float) and exact integer arithmetic.
+BOUNDARY_INTS = [0, 1, 2, 3, 12, 19, 20, 21, 22, 23, 25, 30, 33, 34, 57, 64, 100, 150,
+                 169, 170, 171, 172, 175, 250, 300, 301, 340, 400, 1000]
+
+
+def ref_coherent(N, alpha, off):
+    """exp(-|a|^2/2) a^n / sqrt(n!) for n = off .. off+N-1, evaluated in log
+    space (entries below 1e-300 are returned as None: not judged)"""
+    import cmath
+    a = abs(alpha)
+    ph = cmath.phase(alpha) if a else 0.0
+    out = []
+    for n in range(off, off + N):
+        if a == 0:
+            out.append(complex(1.0 if n == 0 else 0.0))
+            continue
+        lg = -a * a / 2 + n * math.log(a) - math.lgamma(n + 1) / 2
+        out.append(cmath.exp(complex(lg, n * ph)) if lg > -690 else None)
+    return out
+
+
+def judge_vector(v, ref, tol):
+    """-> None or one of 'nonfinite', 'underflow-to-zero', 'wrong-amplitude'"""
+    if not np.all(np.isfinite(v)):
+        return "nonfinite"
+    worst = None
+    for x, r in zip(v, ref):
+        if r is None:
+            continue
+        if r == 0:
+            if abs(x) > 1e-300:
+                worst = "wrong-amplitude"
+            continue
+        if abs(x - r) > tol * abs(r):
+            if x == 0:
+                worst = worst or "underflow-to-zero"
+            else:
+                return "wrong-amplitude"
+    return worst
+
+
+def boundary_oracle(ctx, rng):
+    import qutip as q
+    nchk = [0]
+
+    def case(key, nontrivial=True):
+        nchk[0] += 1
+        ctx.count_case(("boundary",) + tuple(key), nontrivial)
+
+    pick = (lambda l, k: l) if not ctx.quick else (lambda l, k: rng.sample(l, min(k, len(l))))
+
+    # ---- coherent / coherent_dm, analytic closed form with Fock offsets
+    alphas = [0, 0.01, 0.5, complex(5, 1), 12.5, 20j, 40, complex(-30, 30)]
+    offs = [0, 1, 3, 19, 20, 21, 22, 23, 25, 30, 57, 100, 150, 169, 170, 171, 175, 250, 300, 301,
+            400, 1000, 1590]
+    fixed = [(12, complex(5, 1), 23), (12, complex(5, 1), 21), (4, 0.5, 25), (3, 12.5, 171),
+             (5, 12.5, 300), (4, 40, 100), (6, 40, 1590), (40, 40, 0), (2, 20j, 250)]
+    grid = fixed + [(N, a, o) for o in pick(offs, 9) for N in pick([1, 2, 12, 40], 2)
+                    for a in pick(alphas, 3)]
+    seen = set()
+    for N, alpha, off in grid:
+        if (N, alpha, off) in seen:
+            continue
+        seen.add((N, alpha, off))
+        case(("coherent_analytic", N, str(alpha), off))
+        ref = ref_coherent(N, alpha, off)
+        det = {"N": N, "alpha": [complex(alpha).real, complex(alpha).imag], "offset": off,
+               "reference_first": None if ref[0] is None else [ref[0].real, ref[0].imag]}
+        tol = 1e-11 * (N + off + abs(alpha) ** 2 + 10)
+        r = call(q.coherent, N, alpha, offset=off, method="analytic")
+        if r[0] == "err":
+            kind = r[1]
+            det["error"] = r[2][:200]
+        else:
+            v = r[1].full()[:, 0]
+            kind = judge_vector(v, ref, tol)
+            det["got_first"] = [float(v[0].real), float(v[0].imag)]
+            if kind is None and r[1].dims != [[N], [1]]:
+                kind = "dims"
+        if kind is None and r[0] == "ok" and N <= 12:
+            rd = call(q.coherent_dm, N, alpha, offset=off, method="analytic")
+            if rd[0] == "err":
+                kind = "coherent_dm:" + rd[1]
+            else:
+                M = rd[1].full()
+                if not np.all(np.isfinite(M)):
+                    kind = "coherent_dm:nonfinite"
+                elif dev(M, np.outer(v, v.conj())) > 1e-12 * (1 + np.max(np.abs(M))):
+                    kind = "coherent_dm:not-the-projector"
+                elif np.trace(M).real > 1 + 1e-9:
+                    kind = "coherent_dm:trace>1"
+        if kind is not None:
+            ctx.violation("states.coherent:analytic", kind,
+                          "coherent(%d, %r, offset=%d, method='analytic'): %s (closed form "
+                          "exp(-|a|^2/2) a^n/sqrt(n!) evaluated with log-gamma)" % (N, alpha, off, kind), det)
+        # the analytic state never has norm > 1
+        if r[0] == "ok" and np.all(np.isfinite(v)) and np.linalg.norm(v) > 1 + 1e-9:
+            ctx.violation("states.coherent:analytic", "norm>1", "coherent analytic norm exceeds 1", det)
+
+    # ---- coherent / displace / squeeze, operator method: large N, large amplitude
+    for N, alpha in [(64, 0.5), (171, complex(5, 1)), (300, 12.5), (40, 40), (25, complex(-30, 30))]:
+        case(("coherent_operator", N, str(alpha)))
+        co = q.coherent(N, alpha)
+        v = co.full()[:, 0]
+        if not np.all(np.isfinite(v)) or abs(np.linalg.norm(v) - 1) > 1e-9:
+            ctx.violation("states.coherent:operator", "norm", "coherent(%d, %r) is not a unit vector" % (N, alpha),
+                          {"N": N, "alpha": [complex(alpha).real, complex(alpha).imag]})
+        if N >= 4 * abs(alpha) ** 2 + 40:          # far from truncation: moments of the state
+            a = q.destroy(N)
+            if abs(q.expect(a, co) - alpha) > 1e-6 * (1 + abs(alpha)):
+                ctx.violation("states.coherent:operator", "moment", "<a> != alpha for coherent(%d, %r)" % (N, alpha),
+                              {"N": N})
+        for nm, U in (("displace", q.displace(N, alpha).full()), ("squeeze", q.squeeze(N, alpha / 8).full())):
+            if not np.all(np.isfinite(U)) or dev(U @ U.conj().T, np.eye(N)) > 1e-8 * N:
+                ctx.violation("operators." + nm, "not unitary (boundary)", "%s(%d, .) not unitary" % (nm, N),
+                              {"N": N, "alpha": [complex(alpha).real, complex(alpha).imag]})
+
+    # ---- thermal states: geometric populations, extreme occupation numbers
+    for N, nb in [(2, 1e-12), (25, 1e-12), (170, 0.5), (300, 2.0), (1000, 50.0), (40, 1e6), (171, 1e12),
+                  (1100, 1e-3)]:
+        case(("thermal", N, nb))
+        lr = math.log(nb) - math.log1p(nb)
+        ref = [math.exp(-math.log1p(nb) + k * lr) if (-math.log1p(nb) + k * lr) > -690 else None
+               for k in range(N)]
+        ta = call(q.thermal_dm, N, nb, method="analytic")
+        to = call(q.thermal_dm, N, nb)
+        for nm, r_ in (("analytic", ta), ("operator", to)):
+            if r_[0] == "err":
+                ctx.violation("states.thermal_dm:" + nm, r_[1], "thermal_dm(%d, %g, %s) raises %s" % (N, nb, nm, r_[1]),
+                              {"N": N, "n": nb, "error": r_[2][:200]})
+                continue
+            M = r_[1].full()
+            d_ = np.diag(M)
+            kind = None
+            if not np.all(np.isfinite(M)):
+                kind = "nonfinite"
+            elif np.any(M - np.diag(d_)):
+                kind = "not diagonal"
+            elif nm == "analytic":
+                kind = judge_vector(d_, ref, 1e-11 * (N + 10))
+            else:
+                # truncated Gibbs state: trace 1 and geometric ratios
+                if abs(np.sum(d_).real - 1) > 1e-9:
+                    kind = "trace != 1"
+                else:
+                    z = sum(math.exp(k * lr) for k in range(N))
+                    kind = judge_vector(d_, [None if x is None else x * (1 + nb) / z for x in ref],
+                                        1e-10 * (N + 10))
+            if kind:
+                ctx.violation("states.thermal_dm:" + nm, kind, "thermal_dm(%d, %g, method=%s): %s" % (N, nb, nm, kind),
+                              {"N": N, "n": nb, "first": [float(x.real) for x in d_[:4]]})
+
+    # ---- ladder / number / basis with boundary offsets and large N (exact)
+    for N, off in [(3, 20), (3, 21), (4, 170), (4, 171), (171, 0), (300, 25), (5, 10 ** 6),
+                   (3, 2 ** 31 - 2), (3, 2 ** 31), (2, 2 ** 40), (1000, 3)]:
+        case(("ladder_boundary", N, off))
+        a, ad, nn = q.destroy(N, off), q.create(N, off), q.num(N, off)
+        A = a.to("csr").data.as_scipy().tocoo()
+        bad = None
+        want = {(i, i + 1): off + i + 1 for i in range(N - 1)}
+        got = {(int(i), int(j)): v for i, j, v in zip(A.row, A.col, A.data)}
+        if set(got) != set(want):
+            bad = "positions"
+        else:
+            for k_, rad in want.items():
+                x = got[k_]
+                if x.imag != 0 or not ulp_close(x.real, rad):
+                    bad = "entry %r is not sqrt(%d)" % (k_, rad)
+                    break
+        ADm = ad.to("csr").data.as_scipy()
+        if bad is None and (ADm != a.to("csr").data.as_scipy().conj().T).nnz:
+            bad = "create != destroy.dag()"
+        dn = nn.diag() if hasattr(nn, "diag") else np.diag(nn.full())
+        if bad is None and [int(x.real) for x in dn] != list(range(off, off + N)):
+            bad = "num diagonal"
+        for k_ in (off, off + N - 1):
+            b = q.basis(N, k_, offset=off).full()[:, 0]
+            if list(np.flatnonzero(b)) != [k_ - off]:
+                bad = bad or "basis position"
+        if bad:
+            ctx.violation("operators.ladder:boundary", bad.split(" ")[0], "destroy/create/num(%d, offset=%d): %s" % (N, off, bad),
+                          {"N": N, "offset": off, "what": bad})
+
+    # ---- spins at large j: exact radicands, algebra, coherent-state moments
+    for J in [20, 21, 170, 171, 341, 600]:
+        case(("spin_boundary", J))
+        j = J / 2.0
+        jp = q.jmat(j, "+").to("csr").data.as_scipy().tocoo()
+        bad = None
+        got = {(int(i), int(k)): v for i, k, v in zip(jp.row, jp.col, jp.data)}
+        want = {(i, i + 1): (i + 1) * (J - i) for i in range(J)}
+        if set(got) != set(want) or any(got[k].imag != 0 or not ulp_close(got[k].real, want[k]) for k in want):
+            bad = "J+ entries are not sqrt((j-m)(j+m+1))"
+        jz = q.jmat(j, "z").full()
+        if bad is None and not np.array_equal(np.diag(jz), np.array([j - k for k in range(J + 1)], complex)):
+            bad = "Jz diagonal"
+        if bad is None and J <= 171:
+            P = q.jmat(j, "+").full()
+            if dev(P @ P.conj().T - P.conj().T @ P, 2 * jz) > 1e-9 * (J + 1) ** 2:
+                bad = "[J+,J-] != 2Jz"
+        if bad:
+            ctx.violation("operators.jmat:boundary", bad.split(" ")[0], "jmat(%g): %s" % (j, bad), {"J": J})
+    for J in [20, 57, 170]:
+        j = J / 2.0
+        th, ph = 3 * math.pi / 8, 5 * math.pi / 8
+        case(("spin_coherent_boundary", J))
+        r = call(q.spin_coherent, j, th, ph)
+        kind = None
+        if r[0] == "err":
+            kind = r[1]
+        else:
+            v = r[1].full()[:, 0]
+            if not np.all(np.isfinite(v)) or abs(np.linalg.norm(v) - 1) > 1e-8:
+                kind = "norm"
+            else:
+                # closed form |<j,m|theta,phi>|^2 = C(2j, j+m) cos^(2(j+m))(t/2) sin^(2(j-m))(t/2)
+                lc, ls = math.log(math.cos(th / 2)), math.log(math.sin(th / 2))
+                refp = [math.exp(math.lgamma(J + 1) - math.lgamma(k + 1) - math.lgamma(J - k + 1)
+                                 + 2 * (J - k) * lc + 2 * k * ls) for k in range(J + 1)]
+                if np.max(np.abs(np.abs(v) ** 2 - np.array(refp))) > 1e-8:
+                    kind = "populations differ from the binomial closed form"
+        if kind:
+            ctx.violation("states.spin_coherent:boundary", kind.split(" ")[0], "spin_coherent(%g, ..): %s" % (j, kind), {"J": J})
+
+    # ---- Fourier transform, phase operator / basis, Hadamard at large sizes
+    for N in [21, 64, 171, 256]:
+        case(("qft_boundary", N))
+        U = q.qft(N).full()
+        if not np.all(np.isfinite(U)) or dev(U @ U.conj().T, np.eye(N)) > 1e-9 * N \
+                or np.max(np.abs(np.abs(U) ** 2 - 1.0 / N)) > 1e-12:
+            ctx.violation("operators.qft:boundary", "unitary", "qft(%d) not unitary / not flat" % N, {"N": N})
+        vs = np.array([q.phase_basis(N, m).full()[:, 0] for m in (0, 1, N - 1)])
+        if dev(vs.conj() @ vs.T, np.eye(3)) > 1e-9:
+            ctx.violation("states.phase_basis:boundary", "orthonormal", "phase_basis(%d) not orthonormal" % N, {"N": N})
+        P = q.phase(N).full()
+        if not np.all(np.isfinite(P)) or dev(P, P.conj().T) > 1e-9 * N:
+            ctx.violation("operators.phase:boundary", "hermitian", "phase(%d) not Hermitian" % N, {"N": N})
+    from qutip.core import gates as G
+    for n_ in [6, 8]:
+        case(("hadamard_boundary", n_))
+        H = G.hadamard_transform(n_).full()
+        if dev(H @ H, np.eye(2 ** n_)) > 1e-9 or np.max(np.abs(np.abs(H) - 2 ** (-n_ / 2))) > 1e-12:
+            ctx.violation("gates.hadamard_transform:boundary", "involution", "hadamard_transform(%d)" % n_, {"N": n_})
+    for n_ in [9, 12]:
+        case(("wghz_boundary", n_))
+        w, g = q.w_state(n_).full()[:, 0], q.ghz_state(n_).full()[:, 0]
+        if sorted(np.flatnonzero(w)) != sorted(2 ** k for k in range(n_)) or abs(np.linalg.norm(w) - 1) > 1e-12 \
+                or list(np.flatnonzero(g)) != [0, 2 ** n_ - 1] or abs(np.linalg.norm(g) - 1) > 1e-12:
+            ctx.violation("states.w_ghz:boundary", "positions", "w/ghz_state(%d) wrong" % n_, {"N": n_})
+
+    # ---- charge / tunneling / ENR at larger sizes (exact integers)
+    for a_, b_ in [(170, -171), (2 ** 31, 2 ** 31 - 3)]:
+        case(("charge_boundary", a_, b_))
+        c = q.charge(a_, b_)
+        if [int(x.real) for x in c.diag()] != list(range(b_, a_ + 1)):
+            ctx.violation("operators.charge:boundary", "diagonal", "charge(%d, %d) diagonal wrong" % (a_, b_), {})
+    for N, m in [(171, 21), (342, 171), (256, 255)]:
+        case(("tunneling_boundary", N, m))
+        T = q.tunneling(N, m)
+        M = T.full()
+        want = np.eye(N, k=m) + np.eye(N, k=-m)
+        if not np.array_equal(M, want) or bool(T._isunitary) != (dev(want @ want, np.eye(N)) == 0):
+            ctx.violation("operators.tunneling:boundary", "entries/flag", "tunneling(%d, %d) wrong" % (N, m), {"N": N, "m": m})
+    for dims, E in [([25, 25], 30), ([3] * 6, 4), ([171, 2], 171), ([2] * 10, 3)]:
+        case(("enr_boundary", tuple(dims), E))
+        n, s2i, i2s = q.enr_state_dictionaries(dims, E)
+        allowed = [s for s in itertools.product(*[range(d) for d in dims]) if sum(s) <= E]
+        if [i2s[i] for i in range(n)] != allowed:
+            ctx.violation("energy_restricted.enr_state_dictionaries", "enumeration (boundary)",
+                          "restricted states of %r, E=%d wrong" % (dims, E), {"dims": dims, "excitations": E})
+            continue
+        ops = q.enr_destroy(dims, E)
+        for m_, a in enumerate(ops):
+            A = a.to("csr").data.as_scipy().tocoo()
+            got = {(int(i), int(k)): v for i, k, v in zip(A.row, A.col, A.data)}
+            want = {}
+            for st in allowed:
+                if st[m_] > 0:
+                    lo = st[:m_] + (st[m_] - 1,) + st[m_ + 1:]
+                    want[(s2i[lo], s2i[st])] = st[m_]
+            if set(got) != set(want) or any(not ulp_close(got[k].real, want[k]) for k in want):
+                ctx.violation("energy_restricted.enr_destroy", "restriction (boundary)",
+                              "enr_destroy(%r, %d) mode %d wrong" % (dims, E, m_), {"dims": dims, "excitations": E})
+                break
+
+    # ---- random generators at large dimension and extreme density / rank
+    big = [(150, 0.01), (150, 1.0), (64, 0.5)] if not ctx.quick else [(96, 0.02), (64, 1.0)]
+    for N, dens in big:
+        sd = rng.randrange(1 << 30)
+        case(("random_boundary", N, dens))
+        kw = {"N": N, "density": dens, "seed": sd}
+        H = q.rand_herm(N, dens, seed=sd).full()
+        if not np.array_equal(H, H.conj().T) or not np.all(np.isfinite(H)):
+            ctx.violation("random_objects.rand_herm", "boundary:not Hermitian", "rand_herm large N", kw)
+        U = q.rand_unitary(N, dens, seed=sd).full()
+        if dev(U @ U.conj().T, np.eye(N)) > 1e-9 * N:
+            ctx.violation("random_objects.rand_unitary", "boundary:not unitary", "rand_unitary large N", kw)
+        k_ = q.rand_ket(N, dens, seed=sd)
+        if abs(k_.norm() - 1) > 1e-9:
+            ctx.violation("random_objects.rand_ket", "boundary:not normalised", "rand_ket large N", kw)
+        for rank in (1, N):
+            D = q.rand_dm(N, distribution="ginibre", rank=rank, seed=sd).full()
+            ev = np.linalg.eigvalsh((D + D.conj().T) / 2)
+            if abs(np.trace(D) - 1) > 1e-9 or ev.min() < -1e-9 or int(np.sum(ev > 1e-12)) != rank:
+                ctx.violation("random_objects.rand_dm", "boundary:rank/trace", "rand_dm rank %d of %d" % (rank, N), kw)
+        S = q.rand_stochastic(N, dens, seed=sd).full()
+        if np.max(np.abs(S.sum(axis=0) - 1)) > 1e-11 or (S.real < 0).any():
+            ctx.violation("random_objects.rand_stochastic", "boundary:not stochastic", "rand_stochastic large N", kw)
+    return nchk[0]
+
+
 # ------------------------------------------------------------------------ run
 
 
@@ -1015,7 +1332,11 @@ def run(ctx):
         "offsets, doubled spins 0..40, Gaussian-integer diagonals, malformed diagonals/indices/"
         "dims; oracle case = one constructor call on real qutip objects checked against its "
         "defining relation.  A case is non-trivial when the dimension is >= 2 (or the input is "
-        "well-formed for the malformed streams); distinct by (kind, parameters).")
+        "well-formed for the malformed streams); distinct by (kind, parameters).  Boundary oracle: "
+        "every constructor family at offsets/dimensions/spins around 20-25 (int64 factorial), "
+        "170-175 and 250-1600 (double range), |alpha| up to 42 (exp underflow), N up to 1000, "
+        "against log-gamma / exact-integer references; non-finite entries and norms > 1 are "
+        "direct violations.")
     ctx.cov["trusted_base"] += [
         "Model/C20.v is hand-written from operators.py / states.py / energy_restricted.py / "
         "random_objects.py / the shared front end of data/{dia,csr,dense}.pyx diags; tied by the "
@@ -1147,6 +1468,7 @@ def run(ctx):
     # ---- implementation-level oracle (always)
     n = oracle(ctx, rng)
     ctx.cov["oracle_checks"] = n
+    ctx.cov["boundary_checks"] = boundary_oracle(ctx, rng)
     ctx.cov["explanation"] = (
         "Theorems (Props/C20.v) hold for every dimension/offset/spin/excitation bound of the "
         "models; models are tied to the source by exact comparison on generated parameters in "
@@ -1188,5 +1510,8 @@ def replay(ctx, payload):
         ob = q.qdiags([0, 0], 1)
         if ob._isherm is False and not np.any(ob.full()):
             ctx.violation(site, payload["signature"], "qdiags([0,0],1) flagged isherm=False", d)
+        return
+    if ":boundary" in site or site.startswith("states.coherent:") or site.startswith("states.thermal_dm:"):
+        boundary_oracle(ctx, random.Random(payload.get("seed", 0) * 7919 + 20))
         return
     oracle(ctx, random.Random(payload.get("seed", 0) * 7919 + 20))
